@@ -12,7 +12,7 @@ PRIME_ORDER = {"bn254/G1", "secp256k1/G1", "stark-curve/G1", "grumpkin/G1"}
 _LAW = ["P=O", "Q=O", "P=Q", "P=-Q", "Z!=1", "same_pt_diff_rep"]
 _MAND = []
 for _g in G1 + G2_FAST + G2_E4:
-    _MAND += ["%s|%s" % (_g, c) for c in _LAW + ["off_curve"]]
+    _MAND += ["%s|%s" % (_g, c) for c in _LAW + ["off_curve", "inf_zero_value_operand", "rep_000"]]
     if _g not in PRIME_ORDER:
         _MAND.append(_g + "|non_subgroup")
 for _e in EDWARDS:
@@ -22,8 +22,9 @@ PROP = dict(
     rule=("rapid-generated pairs (P,Q) of curve points built by the reference model (subgroup points [k]G with k on the integer "
           "lattice, lifted abscissae/ordinates from the field boundary lattice, cofactor-group points [r]R, order-3/order-2 points, "
           "sums of these) with Q in {O, P, -P, 2P, independent}, Jacobian/projective/extended representatives with Z from the "
-          "field lattice and both infinity encodings; a case is non-trivial when it hits one of: P=O, Q=O, P=Q, P=-Q, a Z!=1 "
-          "representative, the same point in two different representatives, a curve point outside the prime-order subgroup or a "
+          "field lattice and the infinity encodings (1,1,0) (library), (t^2,t^3,0) and the zero value (0,0,0) (also as an explicit operand on either "
+          "side of every binary Jacobian entry point in every case); a case is non-trivial when it hits one of: P=O, Q=O, P=Q, P=-Q, a Z!=1 "
+          "representative, the identity as (0,0,0), the same point in two different representatives, a curve point outside the prime-order subgroup or a "
           "point off the curve given to a predicate; distinct = distinct (group, points, representatives) hashes"),
     assumptions=["reference = affine chord-and-tangent / unified Edwards law over math/big towers (harness/internal/ref, no gnark-crypto code); "
                  "curve constants transcribed from the package docs and validated (generator on curve, [r]G=O, r prime)",
